@@ -61,7 +61,17 @@ OPT_CONFIGS = {
     "shampoo_momentum": dict(lr=0.02, betas=(0.0, 1.0), epsilon=1e-6, freq=1, start=3, graft=("adagrad", 1e-8), momentum=0.5, nesterov=True, weight_decay=0.01, decoupled=False),
     "shampoo_rmsprop": dict(lr=0.01, betas=(0.5, 0.99), epsilon=1e-6, freq=3, start=3, graft=("rmsprop", 0.99, 1e-8), momentum=0.25, bias_correction=False),
 }
+# added by the quantifier audit: no grafting at all, SGD grafting (no grafting state), inverse-root override with a late first
+# refresh, Nesterov off with dampening, and (flag "nomerge") use_merge_dims=False
+OPT_CONFIGS.update({
+    "shampoo_plain": dict(lr=0.01, betas=(0.0, 1.0), epsilon=1e-4, freq=1, start=1, graft=None),
+    "shampoo_sgd": dict(lr=0.01, betas=(0.9, 1.0), epsilon=1e-6, freq=2, start=3, graft=("sgd",), weight_decay=0.001, decoupled=True),
+    "shampoo_override": dict(lr=0.02, betas=(0.0, 0.999), epsilon=1e-6, freq=4, start=5, graft=("adagrad", 1e-8), inv_root_override=2),
+    "shampoo_dampened": dict(lr=0.02, betas=(0.0, 1.0), epsilon=1e-6, freq=1, start=2, graft=("rmsprop", 0.9, 1e-8), momentum=0.9, dampening=0.5, nesterov=False),
+})
+BASE_OPTS = ("shampoo_adagrad", "shampoo_adam", "soap", "shampoo_momentum", "shampoo_rmsprop")
 DTYPES = ("FP32", "BF16", "FP16")
+PDTYPES = ("F32", "F64", "BF16", "F16")      # parameter (= gradient) dtype; F32 is the default and the only one with a value-level model
 FMT = {"FP32": 0, "DEFAULT": 0, "BF16": 1, "FP16": 2}
 
 SHAPE_POOL = [(5, 3), (4,), (2, 6), (3, 3), (7,), (2, 2, 3), (6, 2), (1,), (3, 5), (9,), (4, 4)]
@@ -130,14 +140,40 @@ def _torch_dtype(name):
     return {"FP32": torch.float32, "DEFAULT": torch.float32, "BF16": torch.bfloat16, "FP16": torch.float16}[name]
 
 
+def _param_dtype(spec):
+    import torch
+    return {"F32": torch.float32, "F64": torch.float64, "BF16": torch.bfloat16, "F16": torch.float16}[spec.get("pdtype", "F32")]
+
+
+def comm_at_least_as_precise(spec) -> bool:
+    """The clause of the property that demands equality with the UNMODIFIED single-process run."""
+    pd, cd = spec.get("pdtype", "F32"), spec["cdtype"]
+    if pd == "F64":
+        return False
+    if cd in ("FP32", "DEFAULT"):
+        return True
+    return (pd, cd) in (("BF16", "BF16"), ("F16", "FP16"))
+
+
+def tie_level(spec) -> str:
+    """model: values, logs, hangs against the Coq model; logs: logs and hangs only (values outside the executable float32
+    arithmetic); checker: certified checker only (several parameter groups: the model describes one group)."""
+    if spec.get("groups"):
+        return "checker"
+    return "model" if spec.get("pdtype", "F32") == "F32" else "logs"
+
+
 def make_optimizer_factory(spec, distributed: bool):
     from distributed_shampoo.distributed_shampoo import DistributedShampoo
     from distributed_shampoo.shampoo_types import (AdaGradGraftingConfig, AdamGraftingConfig, DDPShampooConfig,
-                                                   DefaultShampooConfig, DefaultSOAPConfig, RMSpropGraftingConfig)
+                                                   DefaultShampooConfig, DefaultSOAPConfig, RMSpropGraftingConfig,
+                                                   SGDGraftingConfig, ShampooPT2CompileConfig)
     c = OPT_CONFIGS[spec["opt"]]
     g = c.get("graft")
     if g is None:
         graft = None
+    elif g[0] == "sgd":
+        graft = SGDGraftingConfig()
     elif g[0] == "adagrad":
         graft = AdaGradGraftingConfig(epsilon=g[1])
     elif g[0] == "rmsprop":
@@ -151,12 +187,18 @@ def make_optimizer_factory(spec, distributed: bool):
                                 communicate_params=spec["cp"])
 
     def make(ctx, params):
+        groups = spec.get("groups")
+        if groups:      # several parameter groups with identical hyperparameters ("twin" groups): one distributor each
+            cuts = [0, *groups, len(params)]
+            params = [{"params": params[a:b]} for a, b in zip(cuts, cuts[1:])]
         return DistributedShampoo(
-            params, lr=c["lr"], betas=c["betas"], epsilon=c["epsilon"], momentum=c.get("momentum", 0.0),
+            params, lr=c["lr"], betas=c["betas"], epsilon=c["epsilon"], momentum=c.get("momentum", 0.0), dampening=c.get("dampening", 0.0),
             weight_decay=c.get("weight_decay", 0.0), max_preconditioner_dim=spec["maxdim"], precondition_frequency=c["freq"],
-            start_preconditioning_step=c["start"], use_nesterov=c.get("nesterov", False),
+            start_preconditioning_step=c["start"], use_nesterov=c.get("nesterov", False), inv_root_override=c.get("inv_root_override", 0),
             use_bias_correction=c.get("bias_correction", True), use_decoupled_weight_decay=c.get("decoupled", True),
+            use_merge_dims=not spec.get("nomerge", False),
             grafting_config=graft, distributed_config=dcfg,
+            shampoo_pt2_compile_config=ShampooPT2CompileConfig(pytorch_compile_backend="eager") if spec.get("pt2") else None,
             preconditioner_config=DefaultSOAPConfig if c.get("soap") else DefaultShampooConfig)
     return make
 
@@ -164,20 +206,35 @@ def make_optimizer_factory(spec, distributed: bool):
 def make_tensors(spec):
     import torch
     g = torch.Generator().manual_seed(int(spec["seed"]))
-    init = [torch.randn(tuple(sh), generator=g) for sh in spec["shapes"]]
+    dt = _param_dtype(spec)
+    gen_dt = torch.float64 if dt == torch.float64 else torch.float32
+    pscale = spec.get("pscale") or [1.0] * len(spec["shapes"])       # per-parameter scale of the initial values
+    gscale = float(spec.get("gscale", 1.0))                           # scale of all gradients (tiny / huge magnitudes)
+    zero = {tuple(z) for z in spec.get("zero", [])}                   # (step, param): the PRESENT gradient is exactly zero
+    init = [(torch.randn(tuple(sh), generator=g, dtype=gen_dt) * sc).to(dt) for sh, sc in zip(spec["shapes"], pscale)]
     grads = []
-    for step in spec["presence"]:
+    for t_, step in enumerate(spec["presence"]):
         row = []
-        for sh, p in zip(spec["shapes"], step):
-            t = torch.randn(tuple(sh), generator=g)     # drawn even when absent: values do not depend on the presence pattern
-            row.append(t if p else None)
+        for i_, (sh, p) in enumerate(zip(spec["shapes"], step)):
+            t = torch.randn(tuple(sh), generator=g, dtype=gen_dt)     # drawn even when absent: values do not depend on the presence pattern
+            if gscale != 1.0:
+                t = t * gscale
+            if (t_, i_) in zero:
+                t = torch.zeros_like(t)
+            row.append(t.to(dt) if p else None)
         grads.append(row)
     return init, grads
 
 
 def bits_of(t):
+    """Bit patterns of the elements (float32: 32-bit, the only width the Coq arithmetic interprets; others compared as-is)."""
     import torch
-    return [int(x) & 0xFFFFFFFF for x in t.detach().contiguous().reshape(-1).view(torch.int32).tolist()]
+    t = t.detach().contiguous().reshape(-1)
+    if t.dtype == torch.float32:
+        return [int(x) & 0xFFFFFFFF for x in t.view(torch.int32).tolist()]
+    if t.dtype == torch.float64:
+        return [int(x) & 0xFFFFFFFFFFFFFFFF for x in t.view(torch.int64).tolist()]
+    return [int(x) & 0xFFFF for x in t.view(torch.int16).tolist()]
 
 
 def _distributor(opt):
@@ -185,8 +242,13 @@ def _distributor(opt):
     return opt._per_group_state_lists[0][DISTRIBUTOR]
 
 
+def _distributors(opt):
+    from distributed_shampoo.shampoo_types import DISTRIBUTOR
+    return [sl[DISTRIBUTOR] for sl in opt._per_group_state_lists]
+
+
 def observe_blocks(ctx, step, opt, params):
-    return [bits_of(b) for b in _distributor(opt)._global_blocked_params]
+    return [bits_of(b) for d in _distributors(opt) for b in d._global_blocked_params]
 
 
 def run_reference(spec):
@@ -215,15 +277,14 @@ def run_reference(spec):
             torch._foreach_add_(ps, bufs)
 
     make = make_optimizer_factory(spec, distributed=False)
-    if spec["cdtype"] in ("BF16", "FP16"):
+    if not comm_at_least_as_precise(spec):
         with mock.patch.object(Distributor, "update_params", rounded_update_params):
             rec = sim.run_serial(init, make, grads, observe=observe_blocks)
     else:
         rec = sim.run_serial(init, make, grads, observe=observe_blocks)
-    d = _distributor(rec["optimizer"])
-    init_blocks = None
-    return {"snaps": rec["extra"], "nblocks_per_param": list(d._global_num_blocks_per_param),
-            "block_numels": [b.numel() for b in d._global_blocked_params]}
+    ds = _distributors(rec["optimizer"])
+    return {"snaps": rec["extra"], "nblocks_per_param": [k for d in ds for k in d._global_num_blocks_per_param],
+            "block_numels": [b.numel() for d in ds for b in d._global_blocked_params]}
 
 
 def instrumented_factory(spec, tables):
@@ -233,6 +294,8 @@ def instrumented_factory(spec, tables):
 
     def factory(ctx, params):
         opt = make(ctx, params)
+        if tie_level(spec) != "model":      # the recorded directions feed the value-level model only
+            return opt
         d = _distributor(opt)
         rank = ctx.rank
         real = d.update_params
@@ -264,6 +327,19 @@ def run_sim(spec, timeout=5.0):
             info["nbytes"] = int(d._local_dist_buffer.numel() * d._local_dist_buffer.element_size())
         return observe_blocks(ctx, step, opt, params)
 
+    jitter = spec.get("jitter")
+    if jitter is not None:
+        # force different interleavings between collectives: every rank sleeps a rank- and step-dependent few milliseconds
+        # before each step (the results must not depend on it)
+        import random as _random
+        import time as _time
+        delays = [[_random.Random(f"{jitter}-{r}-{t}").choice((0.0, 0.002, 0.006, 0.012)) for t in range(len(grads))] for r in range(world)]
+        plain_grads = grads
+
+        def grads(rank, step):      # noqa: F811 - run_optimizer_cluster accepts a callable
+            _time.sleep(delays[rank][step])
+            return plain_grads[step]
+
     owners_seen = [None] * world
 
     base_factory = instrumented_factory(spec, tables)
@@ -275,10 +351,11 @@ def run_sim(spec, timeout=5.0):
         owners_seen[ctx.rank] = [bool(x) for x in d._distributor_selector]
         if ctx.rank == 0:
             info["nbytes"] = int(d._local_dist_buffer.numel() * d._local_dist_buffer.element_size())
-            info["init_blocks"] = [bits_of(b) for b in d._global_blocked_params]
+            info["init_blocks"] = [bits_of(b) for dd in _distributors(opt) for b in dd._global_blocked_params]
         return opt
 
-    res = sim.run_optimizer_cluster(world, init, factory, grads, observe=observe, timeout=timeout, seed=spec["seed"])
+    res = sim.run_optimizer_cluster(world, init, factory, grads, nsteps=len(spec["presence"]), observe=observe,
+                                    timeout=(60.0 if spec.get("pt2") else timeout), seed=spec["seed"])
     snaps, hung = [], []
     for r in range(world):
         rec = res.results[r] if res.results[r] is not None else (res.partial[r] or {"extra": []})
